@@ -201,6 +201,8 @@ func (in *Interp) reschedule(me *goroutine, exiting bool) {
 			preempt := !exiting && rs[0] == me
 			if preempt && s.switches >= in.cfg.MaxPreempt {
 				idx = 0
+			} else if in.cfg.SchedFirst {
+				idx = 0
 			} else {
 				idx = in.choose(len(rs), "sched")
 				if preempt && idx != 0 {
@@ -466,8 +468,8 @@ func (in *Interp) fireDueTimers() {
 func (in *Interp) fireTimer(t *timer) {
 	// a callback that re-arms its own timer with a zero delay never lets the path end
 	in.timerFires++
-	if in.timerFires > 20000 {
-		panic(pathEnd{"inconclusive", "more than 20000 timer firings on one path (timer livelock?)"})
+	if in.timerFires > 2000 {
+		panic(pathEnd{"inconclusive", "more than 2000 timer firings on one path (timer livelock?)"})
 	}
 	t.active = false
 	if t.period != nil {
